@@ -52,8 +52,14 @@ ITEMS = location_types() + [
                 else if left_col_1 >= n + 1 || (left_col_1 <= 1 && right_col_1 >= n) { r.0@ == line@ && r.1.start_byte == 0 && r.1.prefix_bytes == 0 }
                 else { let s = left_col_1 as int; let e = if right_col_1 + 1 < n + 1 { right_col_1 + 1 } else { n + 1 };
                     r.0@ == (if s > 1 { ell } else { Seq::<char>::empty() }) + line@.subrange(s - 1, e - 1) + (if e <= n { ell } else { Seq::<char>::empty() })
-                    && r.1.start_byte == char_off(line@, s - 1) && r.1.prefix_bytes == (if s > 1 { 3usize } else { 0usize }) } })''')],
-         proofs=[dict(before='let left_clipped = start_col > 1 && start_byte > 0;', text='''
+                    && r.1.start_byte == char_off(line@, s - 1) && r.1.prefix_bytes == (if s > 1 { 3usize } else { 0usize }) } })'''),
+                  ('C17:a_cropped_line_is_at_most_two_ellipses_longer_than_the_line', 'encode_utf8(r.0@).len() <= line.spec_bytes().len() + 6 && r.1.prefix_bytes <= 3 && r.1.start_byte <= line.spec_bytes().len()')],
+         proofs=[dict(at='start', text='''axiom_str_len_bounded(line);
+                    if line@.len() > 0 && 1 <= left_col_1 <= line@.len() {
+                        let n = line@.len() as int; let e = if right_col_1 + 1 < n + 1 { right_col_1 + 1 } else { n + 1 };
+                        lemma_cropped_len(line@, left_col_1 as int - 1, e - 1);
+                    }'''),
+                 dict(before='let left_clipped = start_col > 1 && start_byte > 0;', text='''
                     lemma_char_off_ends(line@);
                     lemma_char_off_monotonic(line@, 0, start_col as int - 1);
                     lemma_char_off_monotonic(line@, start_col as int - 1, end_col_excl as int - 1);
@@ -106,4 +112,49 @@ ITEMS = location_types() + [
                     ('column_window_not_inverted', '1 <= left_col <= right_col'),
                  ], decreases='window_text.spec_bytes().len() - old_pos')},
          ),
+    dict(src=SN, path='fn is_terminal_snippet_clean', trusted=True, props=[], ensures=[('proved_in_unit_snippet', 'true')]),
+    dict(src=SN, path='fn crop_window_text', props=P,
+         rewrites=[
+            (r"!window_text\.as_bytes\(\)\.contains\(&b'\\r'\)", "!str_contains_byte(window_text, b'\\\\r')", 1, 'R8'),
+            (r'window_text\.to_owned\(\)', 'str_to_owned(window_text)', None, 'R8'),
+            (r'error_col\.saturating_sub\(crop_radius\)\.max\(1\)', 'usize_max(error_col.saturating_sub(crop_radius), 1)', 1, 'R8'),
+            (r'String::with_capacity\(window_text\.len\(\)\.min\(4096\)\)', 'string_with_capacity(usize_min(str_len(window_text), 4096))', 1, 'R8'),
+            (r"window_text\[old_pos\.\.\]\.find\('\\n'\)\.map\(\|i\| old_pos \+ i\)", 'str_find_lf_from(window_text, old_pos)', 1, 'R8+R18'),
+            (r'&window_text\[old_pos\.\.nl\]', 'str_slice(window_text, old_pos, nl)', 1, 'R8'),
+            (r'&window_text\[old_pos\.\.\]', 'str_slice(window_text, old_pos, str_len(window_text))', 1, 'R8'),
+            (r"line_raw\.strip_suffix\('\\r'\)\.unwrap_or\(line_raw\)", 'str_strip_cr_suffix(line_raw)', 1, 'R8'),
+            (r'line\.to_owned\(\)', 'str_to_owned(line)', 1, 'R8'),
+            (r'out\.push_str\(&rendered_line\);', 'string_push_str(&mut out, rendered_line.as_str());', 1, 'R8'),
+            (r"out\.push\('\\n'\);", "string_push(&mut out, '\\\\n');", None, 'R8'),
+            (r'\bout\.len\(\)', 'string_len(&out)', None, 'R8'),
+            (r'rendered_line\.len\(\)', 'string_len(&rendered_line)', None, 'R8'),
+            (r'old_in_line_start\.min\(line\.len\(\)\)', 'usize_min(old_in_line_start, str_len(line))', 1, 'R8'),
+            (r'old_in_line_end\.min\(line\.len\(\)\)', 'usize_min(old_in_line_end, str_len(line))', 1, 'R8'),
+            (r'new_local_start\.min\(max\)', 'usize_min(new_local_start, max)', None, 'R8'),
+            (r'new_local_end\.min\(max\)', 'usize_min(new_local_end, max)', None, 'R8'),
+            (r"window_text\.ends_with\('\\n'\)", 'str_ends_with_lf(window_text)', 1, 'R8'),
+            STRLEN,
+         ],
+         requires=[('rows_fit', 'window_start_row <= isize::MAX'),
+                   ('text_below_2_59_bytes', 'window_text.spec_bytes().len() <= usize::MAX / 32')],
+         ensures=[('C17:the_marker_span_is_either_untouched_with_the_text_or_well_ordered', 'r.1 <= r.2 || (r.0@ == window_text@ && r.1 == local_start && r.2 == local_end)'),
+                  ],
+         loops={1: dict(invariant=[
+                    ('position_is_a_char_boundary', 'old_pos <= window_text.spec_bytes().len() && boundary(window_text@, old_pos as int)'),
+                    ('column_window_not_inverted', 'do_crop ==> 1 <= left_col <= right_col'),
+                    ('rows', 'row <= window_start_row + old_pos && window_start_row <= isize::MAX'),
+                    ('output_grows_with_the_input', 'encode_utf8(out@).len() <= 8 * old_pos && window_text.spec_bytes().len() <= usize::MAX / 32'),
+                 ], decreases='window_text.spec_bytes().len() - old_pos')},
+         proofs=[
+            dict(before='let mut old_pos = 0usize;', text='lemma_char_off_ends(window_text@);'),
+            dict(after='let next_nl = str_find_lf_from(window_text, old_pos);', text='''lemma_char_off_ends(window_text@);
+                 if next_nl is Some { axiom_ascii_byte_is_a_char(window_text@, next_nl->Some_0 as int); }'''),
+            dict(before='let out = sanitize_terminal_snippet_preserve_len(out);', label='C17:the_rebased_marker_span_lies_inside_the_cropped_text',
+                 text='assert(new_local_start <= new_local_end && new_local_end <= encode_utf8(out@).len());'),
+            dict(after='let line = str_strip_cr_suffix(line_raw);', text='lemma_strip_cr_len(line_raw@); axiom_str_len_bounded(line);'),
+            dict(before='string_push_str(&mut out, rendered_line.as_str());', ghost=True, text='let ghost out_b = out@;'),
+            dict(after='string_push_str(&mut out, rendered_line.as_str());', text='encode_utf8_concat(out_b, rendered_line@);'),
+            dict(before_re=r"string_push\(&mut out, '\\n'\);", ghost=True, text='let ghost out_c = out@;'),
+            dict(after_re=r"string_push\(&mut out, '\\n'\);", text='lemma_push_lf_len(out_c);'),
+         ]),
 ]
